@@ -19,14 +19,43 @@ def budget(text: str) -> float:
 
 
 # --------------------------------------------------------------------------------- worker side
+_MEMORY_ERRORS = []
+
+
+def _watch_memory_errors():
+    """H-raise: note every MemoryError raised while the formatter runs, whoever catches it. The worker's address space is capped (RLIMIT_AS, 4 GiB): an
+    allocation beyond that fails at once here, where on a user's machine it would take minutes and gigabytes (or the OOM killer)."""
+    import sys
+
+    mon = getattr(sys, "monitoring", None)
+    if mon is None or getattr(_watch_memory_errors, "done", False):
+        return
+    _watch_memory_errors.done = True
+
+    def on_raise(code, offset, exc):
+        if isinstance(exc, MemoryError) and len(_MEMORY_ERRORS) < 5:
+            _MEMORY_ERRORS.append(f"{code.co_filename.rsplit('/', 1)[-1]}:{code.co_qualname}")
+
+    try:
+        mon.use_tool_id(4, "verif-c04")
+        mon.register_callback(4, mon.events.RAISE, on_raise)
+        mon.set_events(4, mon.events.RAISE)
+    except ValueError:
+        pass
+
+
 def w_total(arg):
     from .. import pipeline
 
+    _watch_memory_errors()
     out = []
     for case in arg["cases"]:
         text = case["text"]
+        del _MEMORY_ERRORS[:]
         obs = pipeline.observe_format(text, case.get("options"), want=("rule",))
         rec = {"id": case["id"], "cpu": round(obs["cpu"], 3), "crash": obs["crash"], "effects": obs["effects"], "in_valid": pipeline.valid_fragment(text)}
+        if _MEMORY_ERRORS:
+            rec["memory_errors"] = list(_MEMORY_ERRORS)
         res = obs["out"]
         if obs["crash"] is None:
             rec["is_str"] = isinstance(res, str)
@@ -197,6 +226,8 @@ def judge(c, rec):
         cr = rec["crash"]
         out.append({"kind": "format_code_raised", "rule": cr.get("rule"), "input": c["text"], "detail": dict(cr, options=c["options"], case=c["id"]), "replay": replay})
         return out
+    if rec.get("memory_errors"):
+        out.append({"kind": "allocation_beyond_the_address_space_cap", "input": c["text"], "detail": {"raised_in": rec["memory_errors"], "options": c["options"], "cap": "RLIMIT_AS 4 GiB"}, "replay": replay})
     if rec.get("effects"):
         out.append({"kind": "effect_while_formatting", "input": c["text"], "detail": {"effects": rec["effects"], "options": c["options"]}, "replay": replay})
     if not rec.get("is_str"):
